@@ -15,7 +15,7 @@ EXPLANATION = ('Static decision of the join-swap algebra: exhaustive tables of J
                'supports_swap extracted from MIR and compared with a brute-force relational model; symbolic '
                'path exploration of every swap_inputs implementation per join type (children exchanged, on-pairs '
                'exchanged, filter swapped, projection remapped, output reorder iff both sides are in the output). '
-               'Decides these structural clauses only, not result equality across configurations.')
+               'The skip-partial-aggregation switch (a pure threshold effect) must not change which rows an aggregate sees: at every engine call site of GroupsAccumulator::update_batch / convert_to_state the FILTER mask is forwarded, never the constant None. Decides these structural clauses only, not result equality across configurations.')
 ASSUMPTIONS = ['rustc mir_built is a faithful lowering of the source',
                'the reference model (oracles/joins.py: NULL-aware equi-join over relations of <=2 rows) is the SQL semantics of the ten join types',
                'callee names used as events: reorder_output_after_swap, swap_join_projection, JoinFilter::swap keep their meaning']
@@ -277,6 +277,11 @@ def run(ctx):
                 nv, implemented = analyse_swap_inputs(ctx, f, adt, d, swap_oracle)
                 impls += int(implemented)
     ctx.floor('swap_inputs', 'swap_inputs implementations analysed', impls, 4)
+    # ---- (d) a strategy switch that depends on thresholds must not change which rows an aggregate sees: the FILTER reaches the accumulator
+    import C06
+    nf = C06.filter_reaches_accumulator(ctx, f, 'datafusion_expr_common::groups_accumulator::GroupsAccumulator::',
+                                        lambda c: (c[1:] if c.startswith('<') else c).startswith('datafusion_physical_plan'))
+    ctx.floor('filter-reaches-accumulator', 'engine call sites of GroupsAccumulator::update_batch / convert_to_state', nf, 5)
     # ---- selftests (seeded positives in /verif/selftest)
     stf = ctx.st
     t = table(stf, 'dfscan_selftest::tables::Jt::bad_swap', [enum_domain(stf, 'dfscan_selftest::tables::Jt', True)])
